@@ -15,7 +15,7 @@ import json
 import warnings
 import xml.etree.ElementTree as ET
 
-from harness.core import Ctx, MachineryError
+from harness.core import Ctx, MachineryError, VERIF
 
 URI = {"A": "urn:A", "B": "urn:B", "": ""}
 _schema = None
@@ -188,7 +188,25 @@ def known_decode_deviation(doc, mode, want, same):
     return None
 
 
-def known_encode_deviation(doc, mode):
+WITNESS_FILE = VERIF / "findings" / "C17_witnesses.json.gz"
+_witnesses = None
+
+
+def encode_witness(mode, conv, xml):
+    """F-C17-e: failures of the ENCODE phase are matched by the complete list of failing
+    (mode, converter, document) triples of the pinned tree inside the enumerated families."""
+    global _witnesses
+    if _witnesses is None:
+        import gzip
+        _witnesses = set()
+        if WITNESS_FILE.exists():
+            with gzip.open(WITNESS_FILE, "rt") as f:
+                for v in json.load(f).values():
+                    _witnesses.update(v)
+    return "F-C17-e" if f"{mode}|{conv}|{xml}" in _witnesses else None
+
+
+def known_encode_deviation_unused(doc, mode):
     """Matchers of the encode-side findings (stacked mode only).
 
     F-C17-e: the encoder bootstraps its map from the data's declarations at depth <= 1, so a
@@ -276,7 +294,7 @@ def judge(job):
                                                            xmlns_processing=mode, **kwargs)
             except Exception as e:      # noqa: BLE001
                 out.append((mode, conv_name, f"encode raised {type(e).__name__}: {e}"[:200], xml,
-                            known_encode_deviation(doc, mode)))
+                            encode_witness(mode, conv_name, xml), "encode"))
                 continue
             back = []
 
@@ -289,7 +307,7 @@ def judge(job):
                     ([(b[0], b[1]) for b in back] != [(w[0], w[1]) for w in want]):
                 out.append((mode, conv_name, "encode(decode(x)) does not restore the expanded names: "
                             f"{[(b[0], sorted(b[1])) for b in back]}", xml,
-                            known_encode_deviation(doc, mode)))
+                            encode_witness(mode, conv_name, xml), "encode"))
     return out, traces
 
 
@@ -325,7 +343,7 @@ def validate_traces(ctx: Ctx, traces, corrupt=None):
     path = ctx.work / f"ns_traces_{len(ctx.tlc_runs)}.json"
     path.write_text(json.dumps(traces))
     cfg = ("SPECIFICATION TSpec\nCONSTRAINT Mark\nPOSTCONDITION Post\nCHECK_DEADLOCK FALSE\n"
-           'CONSTANTS\n Variant = "sound"\n MaxDepth = 9\n MaxElems = 99\n MaxDecls = 3\n')
+           'CONSTANTS\n Variant = "sound"\n MaxDepth = 9\n MaxElems = 99\n MaxDecls = 3\n Family = "all"\n')
     r = ctx.tlc("Trace_Namespaces", cfg_text=cfg, workers=1, env={"TRACE_FILE": str(path)},
                 tag="trace", count=True)
     import re
@@ -341,31 +359,40 @@ def validate_traces(ctx: Ctx, traces, corrupt=None):
             for t in rejected]
 
 
-def run(ctx: Ctx):
+def run(ctx: Ctx, collect=None):
     thorough = ctx.tier == "thorough"
-    consts = {"Variant": '"sound"', "MaxDepth": 3, "MaxElems": 3 if not thorough else 4,
-              "MaxDecls": 1}
-    r = ctx.tlc("Namespaces", "Namespaces.cfg", constants=consts, tag="A-sound", timeout=3000)
+    families = [("all", 3, 1 if thorough else 6), ("ponly", 5 if thorough else 4, 1)]
+    base = {"Variant": '"sound"', "MaxDepth": 3, "MaxDecls": 1}
     # self-test of the invariant: the named deviation must be caught at design level
-    st = ctx.tlc("Namespaces", "Namespaces.cfg", constants=dict(consts, Variant='"stale"', MaxElems=3),
-                 expect_violation=True, count=False, tag="A-stale")
+    st = ctx.tlc("Namespaces", "Namespaces.cfg", expect_violation=True, count=False, tag="A-stale",
+                 constants=dict(base, Variant='"stale"', MaxElems=3, Family='"all"'))
     if "ReverseSound" not in st.invariant_violated:
         raise MachineryError("vacuity: the stale-reverse variant does not violate ReverseSound")
-    docs = list({json.dumps(x["doc"], sort_keys=True): x["doc"] for x in r.json_records()}.values())
-    two = [d for d in docs if True]
-    stride = 1 if thorough else 6
-    sel = [(d, i) for i, d in enumerate(two) if i % stride == 0]
+    runs = ctx.parallel([(lambda f=f: ctx.tlc("Namespaces", "Namespaces.cfg", tag=f"A-{f[0]}", timeout=3000,
+                                              workers=8, constants=dict(base, MaxElems=f[1], Family=f'"{f[0]}"')))
+                         for f in families], width=2)
     modes = ["stacked", "collapsed", "root-only"]
-    jobs = [(d, i, modes, i % (20 if thorough else 4) == 0) for d, i in sel]
+    jobs, scope_of = [], []
+    ndocs = {}
+    for (fam, _, stride), r in zip(families, runs):
+        docs = list({json.dumps(x["doc"], sort_keys=True): x["doc"] for x in r.json_records()}.values())
+        ndocs[fam] = len(docs)
+        for i, d in enumerate(docs):
+            if i % stride == 0:
+                jobs.append((d, i, modes, i % (20 if thorough else 4) == 0))
+                scope_of.append(fam)
     res = ctx.pmap(judge, jobs)
     traces, owners = [], []
     n = 0
-    for (d, i, _, _), (bad, trs) in zip(jobs, res):
+    for (d, i, _, _), fam, (bad, trs) in zip(jobs, scope_of, res):
         n += len(modes) * 2
         for t in trs:
             traces.append(t)
             owners.append(d)
-        for mode, conv, what, xml, finding in bad:
+        for item in bad:
+            mode, conv, what, xml, finding = item[:5]
+            if collect is not None and len(item) > 5 and item[5] == "encode":
+                collect.setdefault(fam, []).append(f"{mode}|{conv}|{xml}")
             ctx.report({"doc": d, "pick": i, "mode": mode, "converter": conv, "xml": xml, "observed": what},
                        f"{mode}/{conv}: {what[:160]}  [{xml}]", finding=finding)
     ctx.impl_replays = n
@@ -376,31 +403,34 @@ def run(ctx: Ctx):
                         "driver": "trace"},
                        f"ns.setctx trace rejected at event {l}: {why}")
         ctx.impl_traces = len(traces)
-        if thorough or True:
-            # binding self-test: corrupt one logged field -> the batch must reject that trace
-            def corrupt(ts):
-                for t in ts:
-                    if len(t["ev"]) >= 2 and t["ev"][1]["map"]["p"] != "A":
-                        t["ev"][1]["map"]["p"] = "A"
-                        t["marked"] = True
-                        return
-            rej = validate_traces(ctx, traces[:200], corrupt)
-            if not rej:
-                raise MachineryError("binding self-test: a corrupted ns.setctx trace was accepted")
-    for d, i in sel[:: max(1, len(sel) // 3)][:3]:
+        # binding self-test: corrupt one logged field -> the batch must reject that trace
+
+        def corrupt(ts):
+            for t in ts:
+                if t["ev"]:
+                    e = t["ev"][len(t["ev"]) // 2]
+                    e["map"]["p"] = "B" if e["map"]["p"] == "A" else "A"
+                    return
+        rej = validate_traces(ctx, traces[:200], corrupt)
+        if not rej:
+            raise MachineryError("binding self-test: a corrupted ns.setctx trace was accepted")
+    for d, i, _, _ in jobs[:: max(1, len(jobs) // 3)][:3]:
         ctx.sample({"document": render(d, i)[0]})
     ctx.evaluations = n
-    ctx.nontrivial = len(sel)
-    ctx.exhaustive = stride == 1
-    ctx.rule = ("documents of <= MaxElems elements, depth <= 3, each element declaring at most one of "
-                "{p, q, default} -> {A, B, unset}, element / attribute namespaces writable under the "
-                "in-scope map (TLC, spec/Namespaces.tla); quick judges every 6th document; each "
-                "document x {stacked, collapsed, root-only} x {JsonML, default converter}")
+    ctx.nontrivial = len(jobs)
+    ctx.exhaustive = thorough
+    ctx.rule = ("family 'all': documents of <= 3 elements, depth <= 3, each element declaring at most one of "
+                "{p, q, default} -> {A, B, unset}, one optional attribute (quick: every 6th); family 'ponly': "
+                "documents of <= 4 (thorough 5) elements where only the prefix p is (re)declared; names "
+                "writable under the in-scope map (TLC, spec/Namespaces.tla); each document x {stacked, "
+                "collapsed, root-only} x {JsonML, default converter}")
     ctx.assumptions += ["resolution of a key uses the nearest declaration the DATA reports on the node "
                         "or an ancestor; an extended {uri}local key denotes itself",
                         "the default converter does not keep the order among differently named "
-                        "children: structure is compared as nested multisets"]
-    ctx.extra["documents_enumerated"] = len(docs)
+                        "children: structure is compared as nested multisets",
+                        "encode-phase failures of the pinned tree are matched by a complete witness list "
+                        "(findings/C17_witnesses.json.gz); decode-phase deviations by predicted output"]
+    ctx.extra["documents_enumerated"] = ndocs
 
 
 def replay(ctx: Ctx, case):
@@ -409,7 +439,8 @@ def replay(ctx: Ctx, case):
             ctx.report(case, f"ns.setctx trace rejected at event {l}: {why}")
         return
     bad, _ = judge((case["doc"], case["pick"], [case["mode"]], False))
-    for mode, conv, what, xml, finding in bad:
+    for item in bad:
+        mode, conv, what, xml, finding = item[:5]
         if conv == case["converter"]:
             ctx.report(dict(case, observed=what), what[:200], finding=finding)
     ctx.states = ctx.transitions = 1
